@@ -309,8 +309,10 @@ func (spm *spotMgr) startSpotlights(ctx context.Context, wg *sync.WaitGroup) (ca
 	wg.Add(1)
 	runWorker(spotCtx, spm.stopper, func(ctx context.Context) {
 		defer func() {
-			// Inform the audience to terminate.
-			close(spm.auditCh)
+			// The audience is told to terminate by the terminate{} event
+			// that manageSpotlights sends. The channel to the audience
+			// must not be closed here: the prompter also sends on it, and
+			// may still be running (e.g. when a spotlight failed).
 			// Indicate to the conductor that we are terminating.
 			wg.Done()
 			// Also indicate to the conductor there will be no further error
